@@ -39,6 +39,18 @@ func c19Parse(src string, lang int) (string, bool, ds.VerifParseStatsT, string) 
 	c := allOn()
 	c.Lang = lang
 	c.apply(vm)
+	// two custom dice made of multi-byte text (used by the "custom" family only; no other input contains them): a regular
+	// expression and a stream parser
+	h := func(ctx *ds.Context, groups []string, payload any) (*ds.VMValue, string, error) { return ds.NewIntVal(1), "", nil }
+	_ = vm.RegCustomDice(`骰(\d+)`, h)
+	_ = vm.RegCustomDiceParser(func(ctx *ds.Context, st *ds.CustomDiceStream) (*ds.CustomDiceParseResult, error) {
+		for _, want := range []rune("命运") {
+			if ch, ok := st.Read(); !ok || ch != want {
+				return nil, nil
+			}
+		}
+		return &ds.CustomDiceParseResult{Groups: []string{"命运"}, Matched: true}, nil
+	}, h)
 	var err error
 	pan := ""
 	func() {
@@ -279,6 +291,15 @@ func c19Stray(r *rng) string {
 }
 
 // failure exactly at a newline byte (defect #32 family) and neighbours
+// a syntax error on a line that holds a matching custom dice made of multi-byte text before the error position
+func c19Custom(r *rng) string {
+	dice := func() string { return pick(r, []string{"骰3", "骰12", "命运", "骰007", "命运"}) }
+	pre := pick(r, []string{"", "1+\n ", "x = 2\n", "力量 = 骰3; ", "  "})
+	body := pick(r, []string{"(" + dice() + "+", "(" + dice(), "[" + dice() + ", " + dice(), dice() + " + " + dice() + " * (", dice() + " +", "{a: " + dice() + " + ",
+		"f(" + dice() + ", ", dice() + " ? " + dice() + " :", "`x{" + dice() + "+}`", dice() + " " + dice() + " )", "(" + dice() + ")) + 1", "力量" + dice() + " + ("})
+	return pre + body + pick(r, []string{"", " ", "\n", " // 注释"})
+}
+
 func c19AtNewline(r *rng) string {
 	pre := pick(r, []string{"", " ", "\n", "(", "[1,", "中\n(", "(1+\n"})
 	mid := pick(r, []string{".", "(.", "[.", "(1 .", "'a' .", "x.", "(x.", "(1+2).", "(", "(1+", "[1,", "{", "`{", "if", "(if"})
@@ -308,6 +329,9 @@ func init() {
 		g := &c19Gen{seen: map[string]bool{}, accepted: map[string]int{}, rejected: map[string]int{}}
 		for _, s := range c19Fixed {
 			g.try("fixed", s)
+		}
+		for _, s := range []string{"(骰3+", "(1+\n 骰3 +", "(命运+", "[骰12, 命运", "(骰3", "{a: 骰6 + ", "骰3 + 命运 * ("} {
+			g.try("custom", s)
 		}
 		for _, s := range c19Keywords {
 			g.try("action", s)
@@ -358,7 +382,11 @@ func init() {
 			case 6, 7:
 				g.try("stray", c19Stray(r))
 			case 8:
-				g.try("atnl", c19AtNewline(r))
+				if r.chance(1, 2) {
+					g.try("atnl", c19AtNewline(r))
+				} else {
+					g.try("custom", c19Custom(r))
+				}
 			default:
 				l := 1 + r.intn(8)
 				var sb strings.Builder
